@@ -334,6 +334,26 @@ theorem total_buffer_len_covers (a : Arr) (hpos : ∀ n ∈ a.shape, 1 ≤ n) :
   simp only [mappedBytes, firstElem, byteBounds]
   omega
 
+/-! ## which arguments travel as memory maps: `ArrayMemmapForwardReducer.__call__` -/
+
+/-- **object_arrays_are_never_memmapped.** An array that is not already memmap-backed and whose dtype holds Python
+objects ANYWHERE (`dtype.hasobject`: a plain object array, or a structured / sub-array dtype with an object field,
+whose `kind` is `'V'`) is never dumped to the temp folder to be memory-mapped in the worker, whatever `max_nbytes`
+and its size: it is pickled by value. (Its dump has `allow_mmap=False`, so `load_temporary_memmap` would get a
+plain array back and fail.) -/
+theorem object_arrays_are_never_memmapped (registeredType : Bool) (max_nbytes : Option Nat) (nbytes : Nat) :
+    forwardReduce registeredType false true max_nbytes nbytes = .plainPickle := by
+  cases registeredType <;> simp [forwardReduce]
+
+/-- The whole decision: an argument is dumped and memory-mapped exactly when it is an exact `ndarray`/`memmap`,
+not memmap-backed, object-free, `max_nbytes` is not `None` and `nbytes > max_nbytes` (strictly); a memmap-backed
+one reuses its file whatever its size. -/
+theorem forward_decision (rt bk ho : Bool) (max_nbytes : Option Nat) (nbytes : Nat) :
+    (forwardReduce rt bk ho max_nbytes nbytes = .dumpAndMemmap
+      ↔ rt = true ∧ bk = false ∧ ho = false ∧ ∃ m, max_nbytes = some m ∧ m < nbytes)
+    ∧ (forwardReduce rt bk ho max_nbytes nbytes = .reuseBacking ↔ rt = true ∧ bk = true) := by
+  cases rt <;> cases bk <;> cases ho <;> cases max_nbytes <;> simp [forwardReduce] <;> split <;> simp
+
 /-! ## PRE-FIX witnesses: the three defects of the code BEFORE b514cf6 / 5cddabe, on the `…PreFix` definitions,
 and the same inputs on the code as it is now -/
 
